@@ -320,6 +320,33 @@ def units(w):
                                                                      z3.And(m.sym_val == c["val"], any(l[0] == "set" for l in c["log"]))))
     U.append(Unit("nodes.py::NodeAssign.evaluate", s_assign, p_assign, prepare=install))
 
+    # destructuring assignment: every target is an assignment (updates the nearest enclosing binding, never creates one)
+    def s_assign_destr(it):
+        K.axioms(it)
+        parent, log = abstract_parent(it)
+        fr = sym_frame(w, it, "fr", parent)
+        vals_ = V.list_of(it, [SElem(z3.Int("rhs0"), "value"), SElem(z3.Int("rhs1"), "value")], "rhs")
+        it.assume(z3.String("name0") != z3.String("name1"))
+        node = Obj(nodes["NodeAssignDestructuring"], {"identifiers": PList([SStr(z3.String("name0")), SStr(z3.String("name1"))]),
+                                                      "expression": Obj(nodes["NodeLiteral"], {"value": vals_, "pos": None}), "pos": None})
+        node.fresh = False
+        return [node, fr], {}, {"fr": fr, "dom": fr.fields["map"].sym_dom, "val": fr.fields["map"].sym_val, "log": log}
+
+    def p_assign_destr(it, c, o):
+        m = c["fr"].fields["map"]
+        it.check("post:destructuring-assignment-never-creates-a-binding", m.sym_dom == c["dom"])
+        if o.kind == "return":
+            n0, n1 = z3.String("name0"), z3.String("name1")
+            for i, nm in enumerate((n0, n1)):
+                here = z3.Select(c["dom"], nm)
+                it.check(f"post:target-{i}-was-defined", z3.Or(here, PDEF(nm)))
+                sets = [l for l in c["log"] if l[0] == "set"]
+                it.check(f"post:target-{i}: the-nearest-enclosing-binding-is-updated",
+                         z3.If(here, z3.Select(m.sym_val, nm) == z3.Int(f"rhs{i}"),
+                               z3.Or(*[z3.And(zs(l[1]) == nm, (l[2].z if isinstance(l[2], SElem) else z3.IntVal(-7)) == z3.Int(f"rhs{i}")) for l in sets]) if sets else False))
+    U.append(Unit("nodes.py::NodeAssignDestructuring.evaluate", s_assign_destr, p_assign_destr, prepare=install,
+                  bounded="two targets", replay=replay_prog))
+
     # ================================================================== invoke: evaluation order, single execute, stack trace
     def s_invoke(nargs, spread_at):
         def setup(it):
@@ -556,6 +583,11 @@ PROGS = [
     ("def o = <*a = 1*>; def p = <*_proto_ = o, b = 2*>; o->_proto_ = p; [p->a, p->zz, do p->zz() catch all 'no member' end]", "[1, NULL, 'no member']"),
     ("def o = <*_proto_ = 5, a = 1*>; [o->a, o->x, do o->x() catch all 'no member' end]", "[1, NULL, 'no member']"),
     ("def base = <*f = fn(self) self->k, k = 1*>; def o = <*_proto_ = base, k = 2*>; o->f()", "2"),
+    # destructuring assignment updates enclosing bindings
+    ("def a = 1; def b = 2; def swap() do [a, b] = [b, a]; end; swap(); [a, b]", "[2, 1]"),
+    ("def mk() do def lo = 0; def hi = 1; fn() do [lo, hi] = [hi, lo + hi]; lo end end; def nxt = mk(); nxt(); nxt(); nxt(); nxt()", "3"),
+    ("def a = 'top'; def f() do def b = 'mid'; def g() do [a, b] = ['set', 'set'] end; g(); b end; [f(), a]", "['set', 'set']"),
+    ("def f() do [zz1, zz2] = [1, 2] end; do f() catch all 'undefined' end", "'undefined'"),
     ("def f(x, a) [x, a]; 1 !> f(2)", "[1, 2]"), ("def f(x, a = 9) [x, a]; [1 !> f(), 1 !> f(a = 3)]", "[[1, 9], [1, 3]]"),
     ("def o = <*v = 3, m = fn(self, k) self->v * k*>; o->m(2)", "6"),
     ("def base = <*m = fn(self) self->tag*>; def o = <*_proto_ = base, tag = 'child'*>; o->m()", "'child'"),
